@@ -265,6 +265,35 @@ def _cleanup(vpath):
         pass
 
 
+def coqchk(run, module, allowed=frozenset(), timeout=1500):
+    """Independent re-check of the compiled library of `module` and everything it depends on (thorough tier).
+    Records the axiom summary coqchk prints; anything outside `allowed` is a broken obligation."""
+    rc, out = _run(["coqchk", "-silent", "-o", "-Q", COQ, "Outrank", module], timeout, cwd=COQ)
+    summ = out[out.find("CONTEXT SUMMARY"):] if "CONTEXT SUMMARY" in out else out[-1500:]
+    axioms = []
+    sec = None
+    for ln in summ.splitlines():
+        s = ln.strip()
+        if s.startswith("* "):
+            sec = s
+            if s.startswith("* Axioms:") and "<none>" not in s:
+                rest = s[len("* Axioms:"):].strip()
+                if rest:
+                    axioms.append(rest)
+            continue
+        if sec and sec.startswith("* Axioms:") and s:
+            axioms.append(s)
+    bad_sections = [l.strip() for l in summ.splitlines()
+                    if l.strip().startswith("* ") and not l.strip().startswith(("* Theory", "* Axioms")) and "<none>" not in l]
+    short = [a.split(".")[-2] + "." + a.split(".")[-1] if a.count(".") >= 1 else a for a in axioms]
+    ok = rc == 0 and not bad_sections and all(any(s.endswith(x.split(".")[-1]) for x in allowed) for s in short)
+    run.oblige("coqchk:" + module, ok, "axioms: %s; %s" % (axioms or "<none>", "; ".join(bad_sections)))
+    run.trusted.append("coqchk -o on %s: axioms %s" % (module, ", ".join(axioms) if axioms else "<none>"))
+    if not ok:
+        run.violation("broken-obligation", "coqchk:" + module, found_input=False, extra=summ[-3000:])
+    return ok
+
+
 # ---------------------------------------------------------------------------
 # Running the model inside Coq
 
@@ -383,7 +412,9 @@ class Run:
 
 def finish(run, level="proof", checker_cmd=None, rule="", explanation=None):
     pid = run.pid
-    os.makedirs(os.path.join(VERIF, "evidence"), exist_ok=True)
+    # runs against a scratch tree (mutation self-tests) must not overwrite the evidence of /repo
+    evdir = os.path.join(VERIF, "evidence") if os.path.realpath(REPO) == "/repo" else os.path.join(CACHE, "evidence_scratch")
+    os.makedirs(evdir, exist_ok=True)
     exit_code = 0
     lines = []
     known = known_findings(pid)
@@ -428,7 +459,7 @@ def finish(run, level="proof", checker_cmd=None, rule="", explanation=None):
     ev = dict(property_id=pid, tier=run.tier, seed=run.seed, level=level, coverage=cov,
               assumptions=run.assumptions, wall_s=round(time.time() - run.t0, 2), violations=len(real),
               notes=run.notes)
-    with open(os.path.join(VERIF, "evidence", "%s.json" % pid), "w") as f:
+    with open(os.path.join(evdir, "%s.json" % pid), "w") as f:
         json.dump(ev, f, indent=1, default=str)
     for ln in lines:
         print(ln)
